@@ -39,10 +39,18 @@ class Net:
         self.clients = []
         self.arrivals = []        # (client index, parsed message) in the order the bus processed them
 
-    def raw_client(self, mech=b'ANONYMOUS', hello=True):
-        c = RawClient(self, len(self.clients), mech)
+    def raw_client(self, mech=b'ANONYMOUS', hello=True, pipelined=None):
+        """pipelined: message bytes (a Hello call first) the client sends in the same read as BEGIN."""
+        c = RawClient(self, len(self.clients), mech, pipelined=pipelined)
         self.clients.append(c)
-        if hello:
+        if pipelined is not None:
+            self.collect_all()
+            for m in c.take():
+                if m.mtype == RM.METHOD_RETURN and m.body and isinstance(m.body[0], str) and m.body[0].startswith(':'):
+                    c.unique = m.body[0]
+                else:
+                    c.unread.append(m)
+        elif hello:
             c.hello()
         return c
 
@@ -66,7 +74,7 @@ class Net:
 class RawClient:
     """Scripted client: writes reference-built bytes, parses what the bus sends back."""
 
-    def __init__(self, net, index, mech=b'ANONYMOUS'):
+    def __init__(self, net, index, mech=b'ANONYMOUS', pipelined=None):
         self.net = net
         self.index = index
         self.proto = BusSide()
@@ -87,8 +95,8 @@ class RawClient:
             self.server.feed(b'DATA\r\n')
         else:
             self.server.feed(b'\0AUTH ANONYMOUS\r\n')
-        self.server.feed(b'BEGIN\r\n')
-        out = self.server.t.written()
+        out = self.server.t.written()          # BEGIN itself is not answered: what follows is binary
+        self.server.feed(b'BEGIN\r\n' + (pipelined or b''))
         self.consumed = len(out)
         self.handshake = out
         self.authenticated = self.proto.auth_calls == 1
